@@ -59,7 +59,7 @@ def run(ck):
         fid = None
         for k in ck.known:
             mt = k.get("match", {})
-            if mt.get("source") == name and re.search(mt.get("error_regex", "$^"), r):
+            if mt.get("source") == name and re.search(mt.get("error_regex", "$^"), r) and re.search(mt.get("wgsl_regex", ""), s):
                 fid = k["id"]
         key = (name, rules[:80])
         if fid is None and key in reported:
